@@ -91,8 +91,27 @@ func genReviewCase(c *runCtx, r *rand.Rand, idx int) error {
 		}
 		na := 1 + r.Intn(3)
 		approvers := []string{}
+		reg := []string{} // identities the rule's principals registered, under whichever app
+		for _, pid := range pids {
+			for _, an := range c09Apps {
+				if id, ok := t.Idents[pid][an]; ok {
+					reg = append(reg, id)
+				}
+			}
+		}
+		sort.Strings(reg)
 		for _, x := range r.Perm(8)[:na] {
-			approvers = append(approvers, fmt.Sprintf("user%d", []int{201, 202, 203, 204, 211, 212, 213, 299}[x]))
+			id := fmt.Sprintf("user%d", []int{201, 202, 203, 204, 211, 212, 213, 299}[x])
+			if len(reg) > 0 && r.Intn(3) != 0 {
+				id = reg[r.Intn(len(reg))]
+			}
+			dup := false
+			for _, y := range approvers {
+				dup = dup || y == id
+			}
+			if !dup {
+				approvers = append(approvers, id)
+			}
 		}
 		rv := wReview{App: a.Name, Ref: refMain, From: 2, To: 3, PathRef: refMain, PathFrom: 2, PathTo: 3, Approvers: approvers, Signers: []int{a.Key}}
 		switch r.Intn(9) {
